@@ -44,8 +44,10 @@ CLAIMS = {
               'pack roll-over inside one call are not operations of that theorem (decided by the histories).'),
         design='4/C02'),
     'C03': dict(
-        technique='Coq: invariant + sound boolean checker + verified trace monitor run on implementation traces; independent raw reader',
-        text=('PROOF (Coq, closed): Store.Inv is literally the property statement; C03_checker_sound (inv_b -> Inv), C03_every_boundary (monitor accepted '
+        technique='Coq: invariant proved at every crash point of every history of operation programs + sound boolean checker + verified trace monitor run on implementation traces; independent raw reader',
+        text=('PROOF (Coq, closed): Store.Inv is literally the property statement; C03_every_crash_point_of_every_history + C03_after_every_history (ANY '
+              'finite history of add / pack / direct-to-pack / import / delete / clean / repack programs, killed after ANY number of primitives or run '
+              'to its end: Inv holds); C03_checker_sound (inv_b -> Inv), C03_every_boundary (monitor accepted '
               '=> Inv at every event boundary of the trace), C03_manual_recovery (SQL query + slice + zlib returns bytes with the key digest and size), '
               'C03_unique_keys (no key indexed twice whatever is inserted), C03_tolerates_unreferenced_tail. TIE: the extracted monitor runs on the '
               'trace of every scenario with the model world initialised from the real folder and must end in the real folder; an independent '
@@ -64,8 +66,10 @@ CLAIMS = {
               '(Mono.lookup), not as an event program; GIL/kernel/SQLite isolation are modelled, not verified; threads stand for processes.'),
         design='4/C04'),
     'C05': dict(
-        technique='Coq verified crash monitor + program-level crash theorem (add loose) + kill at every gated I/O call',
-        text=('PROOF (Coq, closed): C05_monitor_sound (accepted trace => at EVERY crash point, buffers and open transaction dropped, Inv holds and every '
+        technique='Coq program-level crash theorems for every operation and for whole histories (all inputs, every crash point) + verified crash monitor + kill at every gated I/O call',
+        text=('PROOF (Coq, closed): C05_every_crash_point_of_every_history, C05_pack_all_loose_over_any_number_of_packs (a call that rolls over '
+              'any number of packs), per operation C05_{add_loose,pack,clean,delete,repack,add_to_pack,import}_every_crash_point (Inv and every '
+              'stored object still stored with its bytes); C05_monitor_sound (accepted trace => at EVERY crash point, buffers and open transaction dropped, Inv holds and every '
               'non-target object is still stored), C05_add_loose_every_crash_point (ALL inputs, worlds, chunkings, crash points), '
               'C05_new_handle_never_wrong_bytes, C05_any_spill. TIE: the monitor runs on the intercepted trace of each of 12 (thorough 28) operation '
               'variants; the process is really killed (os._exit) before EVERY gated call and after the last one (229 / 460 kills), the folder is then '
@@ -210,9 +214,11 @@ CLAIMS = {
               'only; pack roll-over inside one call is not in the programs.'),
         design='4/C17'),
     'C18': dict(
-        technique='Coq descriptor-tracking theorem + balance/bound for the add-loose program + fd census, tracemalloc, trace write sizes',
-        text=('PROOF (Coq, closed): C18_handles_tracked (open write handles after ANY trace = opens minus closes), C18_add_loose_balanced and '
-              'C18_add_loose_bounded (every input, every prefix: at most one handle more, none left), chunk constants bounded. TIE/MEASURED: '
+        technique='Coq descriptor-tracking theorem + one-handle-at-a-time/balance theorems for every write program (all inputs) + fd census, tracemalloc, trace write sizes',
+        text=('PROOF (Coq, closed): C18_handles_tracked (open write handles after ANY trace = opens minus closes), C18_add_loose_balanced / _bounded, '
+              'C18_pack_one_handle_at_a_time, C18_import_one_handle_at_a_time (covers direct-to-pack), C18_repack_one_handle_at_a_time (ANY number of '
+              'objects, batches, packs: the call closes what it opens and at every prefix holds at most one handle more than before), '
+              'C18_delete_and_clean_open_nothing, chunk constants bounded. TIE/MEASURED: the programs reproduce the intercepted traces; '
               '/proc/self/fd census after every step of 60 histories and after close(), 60 rounds of pack operations with flat descriptor count, '
               'at most pack+cache open during bulk reads with seeks on compressed objects, LazyOpener inputs open one at a time, largest single '
               'write from the trace <= chunk bound, tracemalloc peak of 8 streaming paths at 4/16 MiB (thorough 16/64) flat and < 12 MiB. '
